@@ -542,3 +542,213 @@ Proof.
     destruct (Hks k Hin) as [_ S]. rewrite Pi, Nat.sub_0_r in S. exact S.
   - apply own_global. exact Fc.
 Qed.
+
+(** ** the usual case: the repeated blocks are CrossBlocks / MultiCrossBlocks
+    (their constraints have the block itself as scope) *)
+
+(** [k] comes from [c] and applies within each repetition (of [Tb] trials, [Pb] of them preamble) *)
+Definition rep_scope (bd : blockdoc) (Tb Pb T : nat) (c : pcons) (k : dconstraint) : Prop :=
+  src_kind bd c 1 (k_kind k) /\
+  k_windows k = if windowed (k_kind k) then map (rep_window Tb Pb T) (seq 0 (rep_count Tb Pb T)) else [].
+
+Lemma scoped_none_rep : forall bd Tb Pb T csc k, snd csc = ScNone -> Pb < Tb ->
+  scoped bd Tb (fun base => rep_closed base (Tb - Pb) T Pb 0) (fun s => s) csc k ->
+  rep_scope bd Tb Pb T (fst csc) k.
+Proof.
+  intros bd Tb Pb T csc k Hn HP [base [scale [W1 [W2 W3]]]]. rewrite Hn in W1. cbn [scope_windows] in W1.
+  inversion W1; subst. split; [exact W2|]. rewrite W3, rep_closed_whole_block by exact HP. reflexivity.
+Qed.
+
+Lemma rep_closed_chunks : forall Tb T, 0 < Tb -> rep_closed [(0, Tb)] Tb T 0 0 = chunk_windows Tb T.
+Proof.
+  intros Tb T H. pose proof (rep_closed_whole_block Tb 0 T H) as X. rewrite Nat.sub_0_r in X. rewrite X.
+  apply rep_windows_no_preamble.
+Qed.
+
+Definition is_cross (b : pblock) : Prop :=
+  match b with PCross _ _ _ _ | PMulti _ _ _ _ _ _ => True | _ => False end.
+
+Theorem repeat_cross_scope : forall p b cs inner ds,
+  is_cross b -> doc_block p b = Ok inner -> doc_sem_block p (PRepeat b cs) = Ok ds ->
+  exists kss_b kss_c,
+    s_constraints (ds_sem ds) = List.concat kss_b ++ List.concat kss_c ++ marker ds /\
+    Forall2 (fun csc ks => forall k : dconstraint, In k ks ->
+               b_P inner < b_T inner /\ rep_scope (ds_block ds) (b_T inner) (b_P inner) (ds_T ds) (fst csc) k)
+            (b_constraints inner) kss_b /\
+    Forall2 (fun c ks => forall k : dconstraint, In k ks -> global_scope (ds_block ds) (ds_T ds) c k)
+            (filter (fun c => negb (is_min_trials c)) cs) kss_c.
+Proof.
+  intros p b cs inner ds Hx Hb H. destruct (repeat_scope p b cs inner ds Hb H) as [kss_b [kss_c [E [Fb Fc]]]].
+  exists kss_b, kss_c. split; [exact E|]. split; [|exact Fc].
+  pose proof (cross_scopes_none p b inner Hx Hb) as N. clear -Fb N.
+  induction Fb as [|csc ks l l' Hk _ IH]; constructor.
+  - intros k Hin. destruct (Hk k Hin) as [HP S]. split; [exact HP|]. inversion N; subst.
+    apply scoped_none_rep; assumption.
+  - apply IH. inversion N; assumption.
+Qed.
+
+Theorem merge1_cross_scope : forall p b cs mode al inner ds,
+  is_cross b -> doc_block p b = Ok inner -> doc_sem_block p (PMerge [b] cs mode al) = Ok ds ->
+  exists kss_b kss_c,
+    s_constraints (ds_sem ds) = List.concat kss_b ++ List.concat kss_c ++ marker ds /\
+    Forall2 (fun csc ks => forall k : dconstraint, In k ks ->
+               b_P inner < b_T inner /\ rep_scope (ds_block ds) (b_T inner) (b_P inner) (ds_T ds) (fst csc) k)
+            (b_constraints inner) kss_b /\
+    Forall2 (fun c ks => forall k : dconstraint, In k ks -> global_scope (ds_block ds) (ds_T ds) c k)
+            (filter (fun c => negb (is_min_trials c)) cs) kss_c.
+Proof.
+  intros p b cs mode al inner ds Hx Hb H.
+  destruct (merge1_scope p b cs mode al inner ds Hb H) as [kss_b [kss_c [E [Fb Fc]]]].
+  exists kss_b, kss_c. split; [exact E|]. split; [|exact Fc].
+  pose proof (cross_scopes_none p b inner Hx Hb) as N. clear -Fb N.
+  induction Fb as [|csc ks l l' Hk _ IH]; constructor.
+  - intros k Hin. destruct (Hk k Hin) as [HP S]. split; [exact HP|]. inversion N; subst.
+    apply scoped_none_rep; assumption.
+  - apply IH. inversion N; assumption.
+Qed.
+
+(** Nest of two cross blocks: a constraint of the inner block gets one window per group of
+    [n] = inner trial count trials; a constraint of the outer block keeps, in trials of the nest, the
+    window of each repetition of the outer block ([To * n] trials) and its count is scaled by [n]
+    ([ExactlyK k] becomes [k * n]; a [Pin] carries the constrained factor's sustain count) *)
+Definition nest_outer_scope (bd : blockdoc) (To n T : nat) (c : pcons) (k : dconstraint) : Prop :=
+  src_kind bd c n (k_kind k) /\
+  k_windows k = if windowed (k_kind k) then chunk_windows (To * n) T else [].
+
+Definition nest_inner_scope (bd : blockdoc) (n T : nat) (c : pcons) (k : dconstraint) : Prop :=
+  src_kind bd c 1 (k_kind k) /\
+  k_windows k = if windowed (k_kind k) then chunk_windows n T else [].
+
+Theorem nest_cross_scope : forall p o i cs al outer inner ds,
+  is_cross o -> is_cross i ->
+  doc_block p o = Ok outer -> doc_block p i = Ok inner -> doc_sem_block p (PNest o i cs al) = Ok ds ->
+  let n := b_T inner in
+  exists kss_o kss_i kss_c,
+    s_constraints (ds_sem ds) = List.concat kss_o ++ List.concat kss_i ++ List.concat kss_c ++ marker ds /\
+    Forall2 (fun csc ks => forall k : dconstraint, In k ks -> nest_outer_scope (ds_block ds) (b_T outer) n (ds_T ds) (fst csc) k)
+            (b_constraints outer) kss_o /\
+    Forall2 (fun csc ks => forall k : dconstraint, In k ks -> nest_inner_scope (ds_block ds) n (ds_T ds) (fst csc) k)
+            (b_constraints inner) kss_i /\
+    Forall2 (fun c ks => forall k : dconstraint, In k ks -> global_scope (ds_block ds) (ds_T ds) c k)
+            (filter (fun c => negb (is_min_trials c)) cs) kss_c.
+Proof.
+  intros p o i cs al outer inner ds Xo Xi Ho Hi H n.
+  destruct (nest_scope p o i cs al outer inner ds Ho Hi H) as [kss_o [kss_i [kss_c [E [Fo [Fi Fc]]]]]].
+  fold n in Fo, Fi.
+  destruct (doc_block_inv _ _ _ Hi) as [Hn _]. fold n in Hn. destruct (doc_block_inv _ _ _ Ho) as [HTo _].
+  exists kss_o, kss_i, kss_c. split; [exact E|]. split; [|split; [|exact Fc]].
+  - pose proof (cross_scopes_none p o outer Xo Ho) as N. clear -Fo N Hn HTo.
+    induction Fo as [|csc ks l l' Hk _ IH]; constructor.
+    + intros k Hin. destruct (Hk k Hin) as [base [scale [W1 [W2 W3]]]]. inversion N as [|x y Hx Hy]; subst.
+      rewrite Hx in W1. cbn [scope_windows] in W1. inversion W1; subst. split.
+      * rewrite Nat.mul_1_l in W2. exact W2.
+      * rewrite W3. unfold scale_windows. cbn [map fst snd]. rewrite Nat.mul_0_l.
+        rewrite rep_closed_chunks by nia. reflexivity.
+    + apply IH. inversion N; assumption.
+  - pose proof (cross_scopes_none p i inner Xi Hi) as N. clear -Fi N Hn.
+    induction Fi as [|csc ks l l' Hk _ IH]; constructor.
+    + intros k Hin. destruct (Hk k Hin) as [base [scale [W1 [W2 W3]]]]. inversion N as [|x y Hx Hy]; subst.
+      rewrite Hx in W1. cbn [scope_windows] in W1. inversion W1; subst. split; [exact W2|].
+      rewrite W3, rep_closed_chunks by exact Hn. reflexivity.
+    + apply IH. inversion N; assumption.
+Qed.
+
+(** * What the windows mean: a constraint applies separately within each window *)
+Definition row_kind (k : ckind) : bool :=
+  match k with KAtMost _ | KAtLeast _ | KExactlyInARow _ | KExactlyK _ => true | _ => false end.
+
+Definition set_windows (c : dconstraint) (ws : list (nat * nat)) : dconstraint :=
+  {| k_kind := k_kind c; k_factor := k_factor c; k_level := k_level c; k_windows := ws |}.
+
+(** the trials [a, b) of a sequence, taken alone *)
+Definition slice_seq (s : tseq) (a b : nat) : tseq := map (fun row => slice row a b) s.
+
+Lemma slice_nil : forall {A} a b, slice (@nil A) a b = [].
+Proof. intros A a b. unfold slice. rewrite skipn_nil. apply firstn_nil. Qed.
+
+Lemma nth_slice_seq : forall s f a b, nth f (slice_seq s a b) [] = slice (nth f s []) a b.
+Proof.
+  intros s f a b. unfold slice_seq. rewrite <- (slice_nil (A := cell) a b) at 1.
+  apply (map_nth (fun row => slice row a b)).
+Qed.
+
+Lemma slice_slice_whole : forall {A} (row : list A) a b Tb, b - a <= Tb -> slice (slice row a b) 0 Tb = slice row a b.
+Proof.
+  intros A row a b Tb H. unfold slice. rewrite Nat.sub_0_r. cbn [skipn]. rewrite firstn_firstn.
+  rewrite (Nat.min_r Tb (b - a) H). reflexivity.
+Qed.
+
+Lemma forallb_ext_in : forall {A} (f g : A -> bool) l, (forall x, In x l -> f x = g x) -> forallb f l = forallb g l.
+Proof.
+  intros A f g l H. induction l as [|x l IH]; [reflexivity|]. cbn. rewrite (H x (or_introl eq_refl)). f_equal.
+  apply IH. intros y Hy. apply H. right. exact Hy.
+Qed.
+
+(** a run-length or count constraint holds on the sequence iff, for each of its windows, it holds
+    on the trials of that window taken alone (as a sequence of at most [Tb] trials with the single
+    window [0, Tb)) *)
+Theorem constraint_ok_per_window : forall S S' s c Tb,
+  row_kind (k_kind c) = true ->
+  (forall w, In w (k_windows c) -> snd w - fst w <= Tb) ->
+  constraint_ok S s c
+  = forallb (fun w => constraint_ok S' (slice_seq s (fst w) (snd w)) (set_windows c [(0, Tb)])) (k_windows c).
+Proof.
+  intros S S' s c Tb Hk Hw. unfold constraint_ok. cbn [set_windows k_kind k_factor k_level k_windows].
+  destruct (k_kind c); try discriminate; apply forallb_ext_in; intros w Hin; cbn [forallb fst snd];
+    rewrite andb_true_r, nth_slice_seq, (slice_slice_whole _ _ _ Tb (Hw w Hin)); reflexivity.
+Qed.
+
+Corollary constraint_ok_per_window_iff : forall S S' s c Tb,
+  row_kind (k_kind c) = true ->
+  (forall w, In w (k_windows c) -> snd w - fst w <= Tb) ->
+  (constraint_ok S s c = true <->
+   forall w, In w (k_windows c) -> constraint_ok S' (slice_seq s (fst w) (snd w)) (set_windows c [(0, Tb)]) = true).
+Proof.
+  intros S S' s c Tb Hk Hw. rewrite (constraint_ok_per_window S S' s c Tb Hk Hw). apply forallb_forall.
+Qed.
+
+(** the repetition windows (with preamble: each window includes the preamble trials before the repetition) *)
+Theorem constraint_ok_per_repetition : forall S S' s c Tb Pb T,
+  row_kind (k_kind c) = true ->
+  k_windows c = map (rep_window Tb Pb T) (seq 0 (rep_count Tb Pb T)) ->
+  (constraint_ok S s c = true <->
+   forall j, j < rep_count Tb Pb T ->
+     constraint_ok S' (slice_seq s (j * (Tb - Pb)) (Nat.min (j * (Tb - Pb) + Tb) T)) (set_windows c [(0, Tb)]) = true).
+Proof.
+  intros S S' s c Tb Pb T Hk Hw.
+  rewrite (constraint_ok_per_window_iff S S' s c Tb Hk).
+  - rewrite Hw. split.
+    + intros H j Hj. apply (H (rep_window Tb Pb T j)). apply in_map. apply in_seq. lia.
+    + intros H w Hin. apply in_map_iff in Hin. destruct Hin as [j [<- Hj]]. apply in_seq in Hj. apply H. lia.
+  - rewrite Hw. intros w Hin. apply in_map_iff in Hin. destruct Hin as [j [<- _]]. unfold rep_window. cbn [fst snd]. lia.
+Qed.
+
+(** without preamble: the sequence is cut into consecutive chunks of [Tb] trials (the last one may be
+    shorter) and the constraint holds iff it holds on every chunk taken alone *)
+Theorem constraint_ok_per_chunk : forall S S' s c Tb T,
+  row_kind (k_kind c) = true ->
+  k_windows c = chunk_windows Tb T ->
+  (constraint_ok S s c = true <->
+   forall j, j < ceil_div T Tb ->
+     constraint_ok S' (slice_seq s (j * Tb) (Nat.min ((j + 1) * Tb) T)) (set_windows c [(0, Tb)]) = true).
+Proof.
+  intros S S' s c Tb T Hk Hw.
+  rewrite (constraint_ok_per_window_iff S S' s c Tb Hk).
+  - rewrite Hw. unfold chunk_windows. split.
+    + intros H j Hj. apply (H (chunk_window Tb T j)). apply in_map. apply in_seq. lia.
+    + intros H w Hin. apply in_map_iff in Hin. destruct Hin as [j [<- Hj]]. apply in_seq in Hj. apply H. lia.
+  - rewrite Hw. intros w Hin. apply in_map_iff in Hin. destruct Hin as [j [<- _]]. unfold chunk_window. cbn [fst snd]. lia.
+Qed.
+
+(** a combinator constraint, with the single window [0, T), sees the whole rows *)
+Theorem constraint_ok_global : forall S s c T,
+  row_kind (k_kind c) = true -> k_windows c = [(0, T)] -> List.length (nth (k_factor c) s []) <= T ->
+  constraint_ok S s c = constraint_ok S (slice_seq s 0 T) c /\
+  slice (nth (k_factor c) s []) 0 T = nth (k_factor c) s [].
+Proof.
+  intros S s c T Hk Hw Hl.
+  assert (E : slice (nth (k_factor c) s []) 0 T = nth (k_factor c) s []).
+  { unfold slice. rewrite Nat.sub_0_r. cbn [skipn]. apply firstn_all2. exact Hl. }
+  split; [|exact E]. unfold constraint_ok. rewrite Hw, nth_slice_seq, E.
+  destruct (k_kind c); try discriminate; reflexivity.
+Qed.
